@@ -1,6 +1,9 @@
 package cmd
 
 import (
+	"os"
+	"path/filepath"
+
 	"github.com/spf13/cobra"
 	"github.com/spf13/pflag"
 )
@@ -28,4 +31,44 @@ func trackChangedFlags(cmd *cobra.Command) map[string]bool {
 		})
 	}
 	return flagsChanged
+}
+
+// writeFileAtomic replaces the file at path with data so that, if the process is
+// interrupted or a write fails after any number of bytes, path holds either its
+// complete previous content or the complete new content: the data is written to
+// a temporary file in the same directory, flushed, and renamed over path.
+// An existing file keeps its permission bits (as os.WriteFile would leave them);
+// perm is used only when path does not exist yet.
+func writeFileAtomic(path string, data []byte, perm os.FileMode) error {
+	if fi, statErr := os.Stat(path); statErr == nil {
+		perm = fi.Mode().Perm()
+	}
+	tmp, err := os.CreateTemp(filepath.Dir(path), ".gosqlx-tmp-*")
+	if err != nil {
+		return err
+	}
+	tmpName := tmp.Name()
+	if _, err := tmp.Write(data); err != nil {
+		_ = tmp.Close()
+		_ = os.Remove(tmpName)
+		return err
+	}
+	if err := tmp.Sync(); err != nil {
+		_ = tmp.Close()
+		_ = os.Remove(tmpName)
+		return err
+	}
+	if err := tmp.Close(); err != nil {
+		_ = os.Remove(tmpName)
+		return err
+	}
+	if err := os.Chmod(tmpName, perm); err != nil {
+		_ = os.Remove(tmpName)
+		return err
+	}
+	if err := os.Rename(tmpName, path); err != nil {
+		_ = os.Remove(tmpName)
+		return err
+	}
+	return nil
 }
